@@ -12,6 +12,8 @@
 (*   k      +1 (dispatch) or -1 (completion)                               *)
 (*   t      time (ms in traces; constant 0 in the code-shaped model)       *)
 (*   u      microseconds of the instant within the ms t (0..999)           *)
+(*   ref    RefOf(s, k, t, u): enclosure [lo, hi] of the reference         *)
+(*          smoothing after this event (computed by the caller, once)      *)
 (*   lo,hi  floor / ceiling of the published load in units of 1/sc         *)
 (*          (so  load >= maxL  <=>  lo >= maxL  and  load <= minL <=> hi <= minL *)
 (*          exactly, band edges being integers in these units)             *)
@@ -234,10 +236,12 @@ ToSc(r) ==
 RefOn == acfg.ref = 1
 RefClock(s, t, u) == IF RefOn /\ t = s.sampT /\ u < s.sampU THEN "harness.clockMonotone" ELSE "ok"
 RefRange(s, k) == IF RefOn /\ s.tot + k > MaxTot THEN "harness.refRange" ELSE "ok"
-WithRef(s1, s, tot1, t, u) ==
-  IF RefOn
-  THEN LET r == RefNext(s, tot1, t, u) IN [s1 EXCEPT !.rlo = r.lo, !.rhi = r.hi, !.refKnown = TRUE, !.sampU = u]
-  ELSE s1
+\* the enclosure after a get (k = 1) / put (k = -1) at (t, u); computed once per event by the caller of
+\* SampleCheck / SampleUpd and handed to both in the sample record (field ref)
+NoRef == [lo |-> 0, hi |-> 0]
+RefOf(s, k, t, u) == IF RefOn THEN RefNext(s, s.tot + k, t, u) ELSE NoRef
+WithRef(s1, r, u) ==
+  IF RefOn THEN [s1 EXCEPT !.rlo = r.lo, !.rhi = r.hi, !.refKnown = TRUE, !.sampU = u] ELSE s1
 
 \* ---------------------------------------------------------------- samples
 \* load at an empty aperture is infinite: >= maxL whatever the band
@@ -260,7 +264,7 @@ BlindCheck(s, k, t, u, a, i) ==
   ELSE FloorCheck(s, a)
 BlindUpd(s, k, t, u, a, i) ==
   WithRef([Unsteady(Gauges(s, t, a, i), t) EXCEPT !.tot = s.tot + k, !.avgKnown = FALSE, !.sampT = t],
-          s, s.tot + k, t, u)
+          RefOf(s, k, t, u), u)
 
 Track(s, ev) ==
   LET s0 == Adv(s, ev.t)
@@ -281,8 +285,7 @@ SmoothedOk(s, ev) ==
      /\ s.avgKnown =>
           /\ Min2(p, X) - acfg.btol <= ev.avg /\ ev.avg <= Max2(p, X) + acfg.btol
           /\ (dt * 5 >= acfg.win /\ AbsV(p - X) * 10 >= acfg.sc) => AbsV(ev.avg - X) < AbsV(p - X)
-     /\ RefOn => LET r == RefNext(s, s.tot + ev.k, ev.t, ev.u)
-                 IN ToSc(r.lo)[1] - acfg.rtol <= ev.avg /\ ev.avg <= ToSc(r.hi)[2] + acfg.rtol
+     /\ RefOn => ToSc(ev.ref.lo)[1] - acfg.rtol <= ev.avg /\ ev.avg <= ToSc(ev.ref.hi)[2] + acfg.rtol
 
 SettledOk(s, ev) ==
   LET st == Track(s, ev)
@@ -308,7 +311,7 @@ SampleCheck(s, ev) ==
 SampleUpd(s, ev) ==
   WithRef([Track(s, ev) EXCEPT !.tot = s.tot + ev.k, !.avg = ev.avg, !.avgKnown = TRUE, !.sampT = ev.t,
                                !.gA = ev.a, !.gI = ev.i, !.T = ev.t],
-          s, s.tot + ev.k, ev.t, ev.u)
+          ev.ref, ev.u)
 
 \* Steady-state predicates used by the temporal property of the code-shaped model
 InBand(lo, hi) == hi > acfg.minL /\ lo < acfg.maxL
